@@ -70,3 +70,16 @@ def untraced(thunk):
         with NoTracing():
             return thunk()
     return thunk()
+
+
+def cbool(b):
+    """The concrete bool equal to a symbolic one (forks)."""
+    return True if b else False
+
+
+def cint(k, lo, hi):
+    """The concrete int equal to symbolic k in lo..hi, decided by comparisons (forks)."""
+    for i in range(lo, hi + 1):
+        if k == i:
+            return i
+    return hi
